@@ -244,7 +244,8 @@ impl Cqueue {
             }};
         }
 
-        let deadline = timeout.map(|dur| Instant::now() + dur);
+        // `None` also when the deadline is not representable (e.g. `Duration::MAX`)
+        let deadline = timeout.and_then(|dur| Instant::now().checked_add(dur));
         loop {
             match self.ev_queue.pop() {
                 Some(mut ev) => run_ev!(ev),
